@@ -79,9 +79,15 @@ def merge_shard_infos(updates: list[ShardListInfo], dataset_root: Path,
 
     # Move children of root_shard_list into deeper_updates to let recursion
     # merge everything.
+    updated_paths = {
+        update.shard_list_info_file.file_path for update in deeper_updates
+    }
     for child in root_shard_list.children_shard_lists:
         root_shard_list.number_of_examples -= child.number_of_examples
-        deeper_updates.append(child)
+        # A child which is also among the updates is merged only once (the
+        # update is newer).
+        if child.shard_list_info_file.file_path not in updated_paths:
+            deeper_updates.append(child)
     root_shard_list.children_shard_lists = []
 
     # Recursively update children with one longer common prefix.
